@@ -454,3 +454,47 @@ def fuel_pointmass(env, ny):
                          load_factor=n))["loads_from_point_masses"]
     env.eq("C04", "point-mass loads on the free nodes of the modelled half equal those of the full model carrying the mass and its mirror image",
            oh[:-1], of[:ny - 1])
+
+
+@job("c04.moment_mixed", ("C04", "C17"), cfgs=[dict(kinds=("half", "half")), dict(kinds=("half", "full")), dict(kinds=("full", "half"))], ranges=RG, cost=6)
+def moment_mixed(env, kinds):
+    """moment coefficient of one mirror-symmetric wing + tail aircraft: each surface given either as its left half (symmetry on)
+    or full-span, in every combination - the same CM as with both surfaces full-span (the doubling of the moment and of the mean
+    aerodynamic chord follows each surface's own modelling)"""
+    xp = env.xp
+    specs = [("wing", 3, 3, 0.0), ("tail", 2, 2, 3.0)]
+    mk = lambda full: [surface(name=n, nx=nx, ny=(2 * ny - 1) if f else ny, symmetry=not f, side="left", xshift=xs) for (n, nx, ny, xs), f in zip(specs, full)]
+    fac = lambda surfs: (lambda: cls("functionals.moment_coefficient.MomentCoefficient")(surfaces=surfs))
+    hM = env.comp("mixed", fac(mk([k == "full" for k in kinds])))
+    hF = env.comp("full", fac(mk([True, True])))
+    cg = env.var("cg", (3,))
+    cg[1] = 0 * cg[1]
+    common = dict(cg=cg, v=env.var("v", (1,)), rho=env.var("rho", (1,)), S_ref_total=env.var("S_ref_total", (1,)))
+    inM, inF = dict(common), dict(common)
+
+    def ext_cols(a, negate_y):
+        """left-half array with the spanwise index second -> full-span array (mirror image appended, root column shared when
+        the array is nodal); vectors get their y component negated in the image"""
+        img = a[:, ::-1] if a.ndim >= 2 else a[::-1]
+        if negate_y:
+            img = img * np.array([1, -1, 1])
+        return img
+
+    for (n, nx, ny, xs), k in zip(specs, kinds):
+        b = env.var(n + "_b_pts", (nx - 1, ny, 3))
+        b[:, -1, 1] = 0 * b[:, -1, 1]                                  # root on the symmetry plane
+        w = env.var(n + "_widths", (ny - 1,))
+        c = env.var(n + "_chords", (ny,))
+        f = env.var(n + "_sec_forces", (nx - 1, ny - 1, 3))
+        Sr = env.var(n + "_S_ref", (1,))
+        full = dict()
+        full[n + "_b_pts"] = xp.concatenate([b, ext_cols(b, True)[:, 1:]], axis=1)
+        full[n + "_widths"] = xp.concatenate([w, w[::-1]])
+        full[n + "_chords"] = xp.concatenate([c, c[::-1][1:]])
+        full[n + "_sec_forces"] = xp.concatenate([f, ext_cols(f, True)], axis=1)
+        full[n + "_S_ref"] = Sr                                          # the reported reference area already counts both halves
+        half = {n + "_b_pts": b, n + "_widths": w, n + "_chords": c, n + "_sec_forces": f, n + "_S_ref": Sr}
+        inF.update(full)
+        inM.update(full if k == "full" else half)
+    oM, oF = hM.compute(inM), hF.compute(inF)
+    env.eq("C04,C17", "moment coefficient: surfaces modelled %s/%s == both full-span" % kinds, oM["CM"], oF["CM"])
